@@ -37,7 +37,7 @@ func forCases(prop, tier string, seed uint64) []Case {
 	i := 0
 	for rep := 0; rep < n; rep++ {
 		for _, f := range []string{"ustar", "pax", "gnu"} {
-			for _, root := range []string{"./", "/", "top/"} {
+			for _, root := range []string{"./", "/", "top/", ".hid/", "top dir/"} {
 				// padding after the trailer as tar's blocking factor produces it (any number of zero blocks up to one tar record)
 				p := forP{Format: f, Root: root, RS: []int{1, 20, 64, 128, 512}[(rep+i)%5], Pad: []int{0, 1, 2, 3, 5, 17, 18}[(rep*3+i/3)%7]}
 				pb, _ := json.Marshal(p)
